@@ -284,6 +284,7 @@ class CaseResult(object):
         self.exceptions = []        # [(repr exc, conds)]
         self.errors = []            # harness errors
         self.twins = 0
+        self.canon_checks = 0
         self.twins_ok = 0
         self.diffchecks = 0
         self.feasibility = 0
@@ -447,16 +448,26 @@ def run_case(case_name, fn, cfg, opts):
                         lhs=T.show(lt_, 4)[:300], rhs=T.show(rt_, 4)[:300]))
                 _settle(res, fn, cfg, opts, solver, p, label, v, env,
                         None, lt_, rt_)
-                if v == 'proved' and not twin_done and T.variables([lt_, rt_]):
-                    # vacuity twin: the perturbed obligation must be refuted
-                    twin_done = True
-                    res.twins += 1
-                    tv = _witness(solver, p, lt_, rt_)
-                    if tv is True:
-                        res.twins_ok += 1
-                    else:
-                        res.errors.append(
-                            'vacuity twin of %s failed: %s' % (label, tv))
+                if v == 'proved' and T.variables([lt_, rt_]):
+                    if not twin_done:
+                        # vacuity twin (once per case)
+                        twin_done = True
+                        res.twins += 1
+                        tv = _witness(solver, p, lt_, rt_)
+                        if tv is True:
+                            res.twins_ok += 1
+                        else:
+                            res.errors.append(
+                                'vacuity twin of %s failed: %s' % (label, tv))
+                    elif solver.last_stage == 1:
+                        # every obligation decided by the canonical stage:
+                        # the canonical forms must evaluate like the terms
+                        tv = _canon_check(solver, p, lt_, rt_)
+                        res.canon_checks += 1
+                        if tv is not True:
+                            res.errors.append(
+                                'canonical stage unsound on %s: %s' % (
+                                    label, tv))
         if not diff_done and obls and opts.get('diffcheck', True):
             diff_done = True
             _diffcheck(res, fn, cfg, opts, solver, p, obls)
@@ -510,6 +521,44 @@ def _witness(solver, p, lt_, rt_):
     if cb is not None and not close(cb, b, 1e-6):
         return 'canonical form of rhs evaluates to %r, the term to %r' % (
             cb, b)
+    return True
+
+
+def _path_env(solver, p):
+    env = getattr(p, '_env', None)
+    if env is None:
+        r, m = solver.model(p.conds + _spread(p.conds, 3))
+        if r != 'sat':
+            r, m = solver.model(p.conds)
+        env = _fl(m) if r == 'sat' else False
+        p._env = env
+    return env
+
+
+def _canon_check(solver, p, lt_, rt_):
+    env = _path_env(solver, p)
+    if env is False:
+        return 'path condition not satisfiable'
+    env = dict(env)
+    for n in T.variables([lt_, rt_]):
+        if n not in env and n != 'pi':
+            env[n] = _default_value(n)
+    ufs = UFRegistry()
+    try:
+        a = T.evalf(lt_, env, {'*': ufs})
+        b = T.evalf(rt_, env, {'*': ufs})
+    except (T.Undefined, OverflowError, ZeroDivisionError,
+            NotImplementedError, KeyError):
+        return True
+    ca, cb = solver.canon_values(p.conds, [lt_, rt_], env, ufs)
+    if ca is not None and not close(ca, a, 1e-6):
+        return 'canonical form of lhs evaluates to %r, the term to %r' % (
+            ca, a)
+    if cb is not None and not close(cb, b, 1e-6):
+        return 'canonical form of rhs evaluates to %r, the term to %r' % (
+            cb, b)
+    if not close(a, b, 1e-6):
+        return 'proved sides differ numerically: %r %r' % (a, b)
     return True
 
 
